@@ -248,6 +248,28 @@ def worker(job):
                     part.violation('stdout-is-not-the-final-stack', wf)
                 else:
                     part.nontrivial.add(nt_hash('inl', text, mode_f))
+            if i % 13 == 6:
+                # stack items written as decimal numbers, negative ones included: the run either uses them or fails - it never
+                # prints the stack of some other command line with status 0
+                nums = [rng.choice([5, 17, -3, -1, 0, 1000, -128, 2147483647, -2147483647]) for _ in range(rng.choice([1, 2, 3]))]
+                wst = [num_encode(v) for v in nums] + [num_encode(len(nums))]
+                sep = rng.choice([[], ['--']])
+                for mode_n in ('ptyin', 'pipe'):
+                    if mode_n == 'ptyin':
+                        r = proc.run([btcdeb] + sep + ['[OP_DEPTH]'] + [str(v) for v in nums], wd, mode='ptyin', timeout=30)
+                    else:
+                        r = proc.run([btcdeb] + sep + [str(v) for v in nums], wd, stdin=b'[OP_DEPTH]\n', mode='pipe', timeout=30)
+                    part.evaluations += 1
+                    part.count('modes', mode_n + '/decimal-stack-arguments')
+                    wn = dict(kind='decimal-stack-arguments', numbers=nums, separator=bool(sep), mode=mode_n, want_stdout=expected_stdout(wst), run=r.brief())
+                    if r.abnormal:
+                        part.violation('abnormal-exit:' + r.crash_key('btcdeb'), wn)
+                    elif r.rc == 0 and r.stdout.decode('latin1') != expected_stdout(wst):
+                        part.violation('status-0-with-the-stack-of-another-command-line', wn)
+                    elif r.rc != 0 and (sep or all(v >= 0 for v in nums)):
+                        part.violation('fails-where-script-succeeds', wn)
+                    else:
+                        part.nontrivial.add(nt_hash('nums', tuple(nums), mode_n, bool(sep)))
             if i % 7 == 0 and want[0] == 'ok' and not c['tx'] and script and len(script) < 300:
                 # interactive stepping must reach the same final stack
                 nsteps = len(decode_all(script)) + 2
